@@ -123,6 +123,7 @@ def real_plan(tier, seed):
              S([2, 1], [["fail", "ok"], ["ok"]], coe=[True, False]), S([2, 1], [["ok", "ok"], ["fail"]], coe=[False, True]),
              S([1, 2], [["ok"], ["ok", "ok"]]), S([1, 2], [["ok"], ["ok", "fail"]]), S([1, 2], [["ok"], ["shut", "shut"]]), S([1, 2], [["ok"], ["shut", "fail"]], coe=[False, True]),
              S([1, 2], [["fail"], ["ok", "ok"]], coe=[True, False]), S([1, 2], [["shut"], ["ok", "ok"]]),
+             S([1, 2], [["ok"], ["shut", "shut"]], coe=[False, True]), S([1], [["shut"]], coe=[True]), S([2, 1], [["ok", "ok"], ["shut"]], coe=[False, True]),
              S([2, 1], [["ok", "ok"], ["ok"]], chain=False), S([2, 1], [["ok", "fail"], ["ok"]], chain=False), S([2, 1], [["ok", "ok"], ["fail"]], chain=False),
              S([1, 1, 1], [["ok"], ["ok"], ["ok"]]), S([1, 1, 1], [["fail"], ["ok"], ["ok"]]), S([1, 1, 1], [["ok"], ["fail"], ["ok"]]), S([1, 1, 1], [["ok"], ["ok"], ["fail"]]),
              S([1, 1, 1], [["ok"], ["fail"], ["ok"]], coe=[False, True, False]), S([1, 1, 2], [["ok"], ["fail"], ["ok", "ok"]], coe=[False, True, False]),
@@ -549,6 +550,9 @@ def self_test(chk, accepted):
     """the binding must notice a single corrupted field"""
     victim = next((r for r in accepted if r["which"] == "first" and r["sc"].ns == 2 and r["exit_code"] == 0 and not r["signalled"]), None)
     if victim is None:
+        if chk.violations:
+            print("note: self-test skipped (no accepted successful two-stage run; violations are reported above)")
+            return
         raise MachineryError("no successful two-stage run to corrupt for the self-test")
     ticks = [i for i, s in enumerate(victim["steps"]) if s[0] == "Tick" and s[2] == "wrote"]
     bad = dict(victim)
@@ -568,9 +572,24 @@ def self_test(chk, accepted):
     chk.cov["self_test"] = "corrupted exit-status at step %d of %d rejected at that step" % (i + 1, len(steps))
 
 
+def _sweep():
+    """generated run directories of this process (also after a machinery error) and of dead processes"""
+    for name in os.listdir(GEN):
+        m = re.match(r"g03_.*_(\d+)$", name)
+        if m and (int(m.group(1)) == os.getpid() or not os.path.exists("/proc/%s" % m.group(1))):
+            shutil.rmtree(os.path.join(GEN, name), ignore_errors=True)
+
+
 def run(tier):
     chk = Check(PID, tier)
     os.makedirs(GEN, exist_ok=True)
+    try:
+        return _run(chk, tier)
+    finally:
+        _sweep()
+
+
+def _run(chk, tier):
     import threading
     t0 = time.time()
     err = []
